@@ -105,6 +105,18 @@ def main():
         rc.main()
         mark(MARK_END)
         return
+    if mode == "load-peers":
+        # a node starting up reads its peer book
+        quiet_import()
+        from skepticoin.networking.disk_interface import DiskInterface
+        out = sys.stdout
+        sys.stdout = io.StringIO()
+        try:
+            book = DiskInterface().load_peers()
+        finally:
+            sys.stdout = out
+        print("BOOK " + json.dumps(sorted([list(k) for k in book.keys()])))
+        return
     if mode == "write-peers":
         quiet_import()
         from skepticoin.networking.disk_interface import DiskInterface
